@@ -115,7 +115,8 @@ SIM = {
     "C09": _mk(["G7", "G1", "G5"], range(901, 910)),
     "C10": _mk(["G4", "G3"], range(1001, 1004),
                code_env={1002: NOFAULT | {9012, ENV_CONN, ENV_UNHEALTHY}, 1003: NOFAULT | {9012, ENV_CONN, ENV_UNHEALTHY}}),
-    "C13": _mk(["G3", "G2"], range(1301, 1306)),
+    # 1001: an illegitimate preemption is a claim next to a live record the claimant did not write "other than by legitimate preemption"
+    "C13": _mk(["G3", "G2"], list(range(1301, 1306)) + [1001]),
     "C18": _mk(["G1", "G2", "G4", "G6", "G7"], range(1801, 1811), gen=("GenGuards.v", "GenConfig.v", "GenStatus.v")),
     "C19": _mk(["G1", "G2", "G3", "G5", "G6", "G7"], range(1901, 1903), gen=("GenGuards.v", "GenConfig.v", "GenTermCtx.v")),
 }
